@@ -66,6 +66,10 @@ func convCompFuncV1ToV2(cf *ugo.CompiledFunction, opWidth []int) error {
 			continue
 		}
 
+		if int(op) >= len(opWidth) {
+			return fmt.Errorf("unknown opcode %d at %d", op, i)
+		}
+
 		w := opWidth[op]
 		i += 1 + w
 	}
@@ -81,7 +85,14 @@ func convCompFuncV1ToV2(cf *ugo.CompiledFunction, opWidth []int) error {
 	var shift int
 	for i := 0; i < len(cf.Instructions); {
 		op := cf.Instructions[i]
+		if int(op) >= len(opWidth) {
+			return fmt.Errorf("unknown opcode %d at %d", op, i)
+		}
+
 		w := opWidth[op]
+		if i+1+w > len(cf.Instructions) {
+			return fmt.Errorf("truncated instruction at %d", i)
+		}
 
 		for j := i; j <= i+w && j < len(cf.Instructions); j++ {
 			newPos[j] = j + shift
